@@ -90,6 +90,7 @@ type chainCase struct {
 	warm                   bool   // a first ExecutionAllowed with every delegation loadable precedes the observed call
 	invExpAbs              *int64 // absolute expiration of the invocation in Unix seconds
 	argsSplit              bool   // the first argument is given by WithArgument, then all of them (the first with a decoy value) by WithArguments
+	invSealed              bool   // the invocation goes through ToSealed / FromSealed before the check
 	realClock              string // "": bounds far from now; otherwise the case was timed against the wall clock (tag suffix)
 }
 
@@ -287,6 +288,15 @@ func (e *chainEnv) run(tag string, cc chainCase) {
 	}
 	invW := WMap(KV{"iss", didW(e.dids, cc.invIss)}, KV{"sub", didW(e.dids, cc.invSub)}, KV{"aud", didW(e.dids, audEff)},
 		KV{"cmd", WStr(cc.cmd)}, KV{"args", WNode(argsNode)}, KV{"prf", WList(prfW...)}, KV{"exp", e.invExpW(cc)})
+	if cc.invSealed {
+		b, _, err := inv.ToSealed(e.keys[cc.invIss])
+		if err != nil {
+			return
+		}
+		if inv, _, err = invocation.FromSealed(b); err != nil {
+			return
+		}
+	}
 	var allowed bool
 	hookW := WNull
 	panicked := false
@@ -799,6 +809,29 @@ func genChain(c *Ctx) {
 		for _, sealedD := range []bool{false, true} {
 			links := []link{{iss: 1, aud: 0, sub: 1, cmd: "/"}}
 			e.run("chain/extreme-exp/invocation", chainCase{invIss: 0, invSub: 1, invAud: -1, cmd: "/a", args: stdArgs, links: links, sealed: sealedD, invExpAbs: i64(ab)})
+		}
+	}
+
+	// ---- 3e3. equality on map values whose entries come in different orders: a Go map given as an argument is laid out
+	// in bytewise key order, a decoded map in DAG-CBOR order (shorter keys first); every combination of built /
+	// decoded delegation and built / decoded invocation must decide the same
+	for _, kv := range []struct {
+		pol  string
+		args [][2]any
+	}{
+		{`{"id":7,"n":2}`, [][2]any{{"quota", map[string]any{"id": 7, "n": 2}}}},
+		{`{"id":7,"n":2}`, [][2]any{{"quota", map[string]any{"id": 7, "n": 3}}}},
+		{`{"aa":{"zz":1,"y":[1,{"bb":1,"a":2}]},"b":1}`, [][2]any{{"quota", map[string]any{"b": 1, "aa": map[string]any{"y": []any{1, map[string]any{"a": 2, "bb": 1}}, "zz": 1}}}}},
+		{`{"id":7,"n":2}`, [][2]any{{"quota", map[string]any{"id": 7, "n": 2, "x": 0}}}},
+	} {
+		for _, sd := range []bool{false, true} {
+			for _, si := range []bool{false, true} {
+				for pos := 0; pos < 2; pos++ {
+					links := []link{{iss: 1, aud: 0, sub: 2, cmd: "/"}, {iss: 2, aud: 1, sub: 2, cmd: "/"}}
+					links[pos].pol = []pstmt{{kind: "==", sel: ".quota", val: J(kv.pol)}}
+					e.run("chain/map-order", chainCase{invIss: 0, invSub: 2, invAud: -1, cmd: "/a", args: kv.args, links: links, sealed: sd, invSealed: si})
+				}
+			}
 		}
 	}
 
